@@ -64,3 +64,10 @@ def item_percolation(grid_shape, p, start_coord, allowed_start, allowed_end, dea
 def item_dfs_percolation(grid_shape, p, accessible_cells, max_tree_depth, start_coord, allowed_start, allowed_end, deadend_start, deadend_end, endpoints_not_equal):
     maze = LatticeMazeGenerators.gen_dfs_percolation(grid_shape, p, 2, accessible_cells, max_tree_depth, start_coord)
     return maze, maze.generate_random_path(True, allowed_start, allowed_end, deadend_start, deadend_end, endpoints_not_equal)
+
+
+def hash_consistent(a, b):
+    "C09: equal mazes have equal hashes (python's `a == b` is type(a).__eq__(a, b); hash(a) is type(a).__hash__(a))"
+    if a.__eq__(b):
+        return a.__hash__() == b.__hash__()
+    return True
